@@ -11,3 +11,5 @@ mod boolean;
 mod ff;
 #[cfg(kani)]
 mod float;
+#[cfg(kani)]
+mod assume;
